@@ -114,7 +114,7 @@ class G:
             u = self.pick_up()
             start = r.choice([None, 0, 1, 2, 3])
             step = r.choice([None, 1, 2, 3])
-            end = r.choice([None, None, 2, 4, 6])
+            end = r.choice([None, None, 1, 1, 2, 3, 4, 6])
             self.add({"kind": "slice", "ups": [u], "start": start, "end": end, "step": step}, self.types[u])
         elif k == "partition":
             u = self.pick_up()
